@@ -31,37 +31,39 @@ instr() { go run ./cmd/instr -dir "$W/ov" -o "$W/ov.json" "$@" || { echo "harnes
 
 case "$ID" in
 C10)
-  instr $REPO/machine/disk/mem.go=sync,yield,copy $REPO/machine/disk/file.go=unix
+  instr $REPO/machine/disk/mem.go=sync,yield,copy $REPO/machine/disk/file.go=unix,sync
   build "$W/bin" ./cmd/c10 -overlay "$W/ov.json" || exit 3
   build "$W/free" ./cmd/c10 -race -tags free || exit 3
   export VERIF_FREE_BIN="$W/free"
   ;;
 C09)
-  instr $REPO/machine/disk/file.go=unix
+  instr $REPO/machine/disk/file.go=unix,sync
   build "$W/bin" ./cmd/$LC -overlay "$W/ov.json" || exit 3
   ;;
 C11)
-  instr $REPO/machine/disk/file.go=unix
+  instr $REPO/machine/disk/file.go=unix,sync
   build "$W/bin" ./cmd/$LC -overlay "$W/ov.json" || exit 3
   build "$W/free" ./cmd/$LC -race -tags free || exit 3
   export VERIF_FREE_BIN="$W/free"
   ;;
 C12)
-  instr $REPO/machine/filesys/dir.go=unix
+  instr $REPO/machine/filesys/dir.go=unix,sync
   build "$W/bin" ./cmd/$LC -overlay "$W/ov.json" || exit 3
   ;;
 C13)
-  instr $REPO/machine/filesys/dir.go=unix $REPO/machine/filesys/mem.go=sync,yield,copy
+  instr $REPO/machine/filesys/dir.go=unix,sync $REPO/machine/filesys/mem.go=sync,yield,copy
   build "$W/bin" ./cmd/$LC -overlay "$W/ov.json" || exit 3
   ;;
 C14)
-  instr $REPO/machine/filesys/dir.go=unix,yield $REPO/machine/filesys/mem.go=sync,yield,copy
+  instr $REPO/machine/filesys/dir.go=unix,yield,sync $REPO/machine/filesys/mem.go=sync,yield,copy
   build "$W/bin" ./cmd/$LC -overlay "$W/ov.json" || exit 3
   build "$W/free" ./cmd/$LC -race -tags free || exit 3
   export VERIF_FREE_BIN="$W/free"
   ;;
 C15)
-  instr $REPO/machine/prims.go=yield
+  PRIM=$(go list -m -f '{{.Dir}}' github.com/goose-lang/primitive 2>/dev/null)
+  [ -n "$PRIM" ] || { echo "harness error: primitive module not found" >&2; exit 3; }
+  instr $REPO/machine/prims.go=yield,sync,time,chan,go $PRIM/prims.go=sync,time,chan,go
   build "$W/bin" ./cmd/$LC -overlay "$W/ov.json" || exit 3
   build "$W/free" ./cmd/$LC -race -tags free || exit 3
   export VERIF_FREE_BIN="$W/free"
